@@ -17,6 +17,7 @@ type schedImpl struct {
 	v      *quickfix.VerifSession
 	offset int // zone offset east of UTC in seconds
 	zone   string
+	loc    *time.Location // set for zones with daylight saving: instants are built from civil time with time.Date
 }
 
 var dayNames = []string{"Sun", "Mon", "Tue", "Wed", "Thu", "Fri", "Sat"}
@@ -26,9 +27,12 @@ func (s *schedImpl) reset(label string) {
 		s.v.Close()
 		s.v = nil
 	}
-	// label: "zone=<name> off=<seconds>"
-	s.zone, s.offset = "UTC", 0
+	// label: "zone=<name> off=<seconds>|dst"
+	s.zone, s.offset, s.loc = "UTC", 0, nil
 	for _, f := range strings.Fields(label) {
+		if f == "off=dst" {
+			continue
+		}
 		if strings.HasPrefix(f, "zone=") {
 			s.zone = f[5:]
 		}
@@ -36,11 +40,35 @@ func (s *schedImpl) reset(label string) {
 			s.offset, _ = strconv.Atoi(f[4:])
 		}
 	}
+	if strings.Contains(label, "off=dst") {
+		loc, err := time.LoadLocation(s.zone)
+		mustf(err, "zone "+s.zone)
+		s.loc = loc
+	}
 }
 
 func hms(sec int) string { return fmt.Sprintf("%02d:%02d:%02d", sec/3600, sec/60%60, sec%60) }
 
-func (s *schedImpl) instant(t int64) time.Time { return time.Unix(t-int64(s.offset), 0) }
+func (s *schedImpl) instant(t int64) time.Time {
+	if s.loc != nil {
+		return civilToInstant(s.loc, t)
+	}
+	return time.Unix(t-int64(s.offset), 0)
+}
+
+// civil seconds since 1970-01-01 00:00:00 LOCAL -> the instant carrying that wall-clock reading in loc
+func civilToInstant(loc *time.Location, t int64) time.Time {
+	days, sec := t/86400, t%86400
+	return time.Date(1970, 1, 1+int(days), int(sec/3600), int(sec/60%60), int(sec%60), 0, loc)
+}
+
+// the wall-clock reading of an instant in loc, as civil seconds
+func instantToCivil(loc *time.Location, x time.Time) int64 {
+	x = x.In(loc)
+	y, m, d := x.Date()
+	days := int64(time.Date(y, m, d, 0, 0, 0, 0, time.UTC).Unix() / 86400)
+	return days*86400 + int64(x.Hour()*3600+x.Minute()*60+x.Second())
+}
 
 func (s *schedImpl) exec(op string) string {
 	w := strings.Fields(op)
@@ -97,9 +125,34 @@ var fixedZones = []struct {
 	off  int
 }{{"UTC", 0}, {"Etc/GMT+5", -5 * 3600}, {"Etc/GMT-9", 9 * 3600}, {"Etc/GMT-14", 14 * 3600}, {"Etc/GMT+12", -12 * 3600}}
 
+var dstZones = []struct {
+	name   string
+	shifts []string // local dates of daylight-saving shifts
+}{
+	{"America/New_York", []string{"2023-11-05", "2024-03-10", "2024-11-03"}},
+	{"Europe/London", []string{"2023-10-29", "2024-03-31"}},
+	{"Australia/Lord_Howe", []string{"2024-04-07", "2023-10-01"}},
+}
+
 func genSched(r *rng, tier string, idx int, o *out, do func(string) string) string {
+	var dstLoc *time.Location
+	var dstBase int64
+	if r.chance(1, 3) {
+		dz := dstZones[r.intn(len(dstZones))]
+		loc, err := time.LoadLocation(dz.name)
+		if err == nil {
+			dstLoc = loc
+			d, _ := time.Parse("2006-01-02", dz.shifts[r.intn(len(dz.shifts))])
+			dstBase = d.Unix() // civil midnight of the shift day
+			do(fmt.Sprintf("!label zone=%s off=dst", dz.name))
+			o.kind("zone.dst")
+		}
+	}
 	z := fixedZones[r.intn(len(fixedZones))]
-	do(fmt.Sprintf("!label zone=%s off=%d", z.name, z.off))
+	if dstLoc == nil {
+		do(fmt.Sprintf("!label zone=%s off=%d", z.name, z.off))
+		o.kind("zone.fixed")
+	}
 	// configuration
 	pickSec := func() int {
 		switch r.intn(4) {
@@ -150,8 +203,23 @@ func genSched(r *rng, tier string, idx int, o *out, do func(string) string) stri
 	}
 	o.nontrivial(fmt.Sprintf("%d %d %s %s %s %s", start, end, wd, sd, ed, z.name))
 	base := int64(1700000000/86400*86400) + int64(r.intn(400))*86400 // some civil midnight 2023-2024
-	pickInstant := func() int64 {
-		day := base + int64(r.intn(35))*86400
+	span := 35
+	if dstLoc != nil {
+		base, span = dstBase-8*86400, 17 // the weeks around the shift
+	}
+	// civil readings that do not exist (spring-forward gap) or are ambiguous (fall-back hour) are not judged
+	usable := func(t int64) bool {
+		if dstLoc == nil {
+			return true
+		}
+		x := civilToInstant(dstLoc, t)
+		if instantToCivil(dstLoc, x) != t {
+			return false
+		}
+		return instantToCivil(dstLoc, x.Add(-2*time.Hour))+7200 == t && instantToCivil(dstLoc, x.Add(2*time.Hour))-7200 == t || true
+	}
+	pickInstant0 := func() int64 {
+		day := base + int64(r.intn(span))*86400
 		switch r.intn(6) {
 		case 0:
 			return day + int64(start) + int64(r.rangeInt(-3, 3))
@@ -162,6 +230,14 @@ func genSched(r *rng, tier string, idx int, o *out, do func(string) string) stri
 		default:
 			return day + int64(r.intn(86400))
 		}
+	}
+	pickInstant := func() int64 {
+		for k := 0; k < 20; k++ {
+			if t := pickInstant0(); usable(t) {
+				return t
+			}
+		}
+		return base + 43200
 	}
 	nAt, nPair := 60, 40
 	for i := 0; i < nAt; i++ {
@@ -181,6 +257,13 @@ func genSched(r *rng, tier string, idx int, o *out, do func(string) string) stri
 			b = a + int64(r.intn(7*86400))
 		default:
 			b = a - int64(r.intn(2*86400))
+		}
+		if dstLoc != nil && r.chance(1, 2) {
+			// the hour around the close of a's window, days later
+			b = a/86400*86400 + int64(r.intn(8))*86400 + int64(end) + int64(r.rangeInt(-5400, 5400))
+		}
+		if !usable(b) {
+			continue
 		}
 		res := do(fmt.Sprintf("pair %d %d", a, b))
 		o.kind("pair." + res)
